@@ -83,8 +83,8 @@ theorem Touched.notify_inv {m : NotifySt} {x : Obj} (h : Touched (.notify m) x) 
 
 /-! ### the `World` transformers that end in `schedule` -/
 
-theorem branch_objs {w w' : World} {o : Nat} {a : Action} {blk : Bool}
-    (h : w.branch o a blk = .ok w') : ObjsTouched w.exec.objs w'.exec.objs := by
+theorem branch_objs {w w' : World} {o : Nat} {a : Action} {blk wt : Bool}
+    (h : w.branch o a blk wt = .ok w') : ObjsTouched w.exec.objs w'.exec.objs := by
   unfold World.branch at h
   simp only [bind, Except.bind, pure, Except.pure] at h
   split at h
@@ -117,9 +117,17 @@ theorem parkNow_objs {w w' : World} (h : w.parkNow = .ok w') :
     · cases h
     · next v hv => cases h; have := @schedule_objs _ v.1 v.2 _ hv; exact this
 
+theorem blockNow_objs {w w' : World} (h : w.blockNow = .ok w') :
+    ObjsTouched w.exec.objs w'.exec.objs := by
+  unfold World.blockNow at h
+  simp only [bind, Except.bind, pure, Except.pure] at h
+  split at h
+  · cases h
+  · next v hv => cases h; have := @schedule_objs _ v.1 v.2 _ hv; exact this
+
 /-- the transformers that end in `schedule` change nothing of the world outside `exec` -/
-theorem branch_rest {w w' : World} {o : Nat} {a : Action} {blk : Bool}
-    (h : w.branch o a blk = .ok w') : ∃ e, w' = { w with exec := e } := by
+theorem branch_rest {w w' : World} {o : Nat} {a : Action} {blk wt : Bool}
+    (h : w.branch o a blk wt = .ok w') : ∃ e, w' = { w with exec := e } := by
   unfold World.branch at h
   simp only [bind, Except.bind, pure, Except.pure] at h
   split at h
@@ -134,6 +142,13 @@ theorem parkNow_rest {w w' : World} (h : w.parkNow = .ok w') : ∃ e, w' = { w w
   · split at h
     · cases h
     · cases h; exact ⟨_, rfl⟩
+
+theorem blockNow_rest {w w' : World} (h : w.blockNow = .ok w') : ∃ e, w' = { w with exec := e } := by
+  unfold World.blockNow at h
+  simp only [bind, Except.bind, pure, Except.pure] at h
+  split at h
+  · cases h
+  · cases h; exact ⟨_, rfl⟩
 
 theorem yieldNow_rest {w w' : World} (h : w.yieldNow = .ok w') : ∃ e, w' = { w with exec := e } := by
   unfold World.yieldNow at h
@@ -189,8 +204,8 @@ theorem schedule_terminated {e e' : Exec} {b : Bool} {p : Bool} (h : e.schedule 
     | (cases h; exact term_both _ _ _ _ (fun _ => rfl))
 
 /-- a branch point terminates nobody -/
-theorem branch_terminated {w w' : World} {o : Nat} {a : Action} {blk : Bool}
-    (h : w.branch o a blk = .ok w') (i : Nat)
+theorem branch_terminated {w w' : World} {o : Nat} {a : Action} {blk wt : Bool}
+    (h : w.branch o a blk wt = .ok w') (i : Nat)
     (ht : (w'.ths.get i).isTerminated = true) : (w.ths.get i).isTerminated = true := by
   unfold World.branch at h
   simp only [bind, Except.bind, pure, Except.pure] at h
